@@ -400,6 +400,18 @@ func RunCheck(t *testing.T, chk Check) int {
 					rmu.Lock()
 					res.inconcl = append(res.inconcl, fmt.Sprintf("case %s did not finish within %v of wall-clock time (watchdog; goroutine dump in %s); remaining cases not executed", stuck, caseLimit, dump))
 					rmu.Unlock()
+					if raceEnabled {
+						// what the race detector reported before the run got stuck is still a verdict (a stuck run is often the
+						// visible end of an unsynchronised access, e.g. a mutex copied while it was held)
+						rc := &Ctx{Check: chk.Prop, ID: "finish", Seed: seed, Tier: tier, T: t, Rng: rand.New(rand.NewSource(seed)),
+							counters: map[string]int64{}, nontrivial: map[string]bool{}}
+						wl := chk.Prop
+						if chk.Prop == "C14" {
+							wl = ""
+						}
+						ReportRaces(rc, wl)
+						merge(rc)
+					}
 					code := finalize()
 					os.Exit(code)
 				}
